@@ -8,6 +8,7 @@ import (
 	"os"
 	"sort"
 	"strings"
+	"context"
 	"sync"
 	"sync/atomic"
 	"time"
@@ -481,19 +482,50 @@ func (m *machine) checkWith(extra *Term) Result {
 		atomic.AddInt64(&cacheHits, 1)
 		return r.(Result)
 	}
-	// queries with regular-expression membership go to cvc5 first, the
-	// others to the z3 server (measured: each is the faster one there)
+	// stage 1: the first two one-shot solvers race (each is much faster than the
+	// other on some kinds of query); the loser is killed
 	order := make([]int, 0, len(m.sessions))
-	if strings.Contains(script, "str.in_re") {
-		for i, ss := range m.sessions {
-			if !ss.s.server {
-				order = append(order, i)
+	if len(m.sessions) >= 2 && m.sessions[0].s.oneshot && m.sessions[1].s.oneshot {
+		type ans struct {
+			r   Result
+			err error
+			i   int
+		}
+		ctx, cancel := context.WithCancel(context.Background())
+		ch := make(chan ans, 2)
+		t0 := time.Now()
+		for i := 0; i < 2; i++ {
+			go func(i int) {
+				r, _, err := m.sessions[i].s.runOneShotCtx(ctx, script+"(check-sat)\n")
+				ch <- ans{r, err, i}
+			}(i)
+		}
+		var firstErr error
+		for k := 0; k < 2; k++ {
+			a := <-ch
+			m.x.noteQuery(a.i)
+			if a.err != nil && firstErr == nil {
+				firstErr = a.err
+			}
+			if a.err == nil && a.r != Unknown {
+				cancel()
+				noteStage(m.sessions[a.i].s.name, time.Since(t0), a.r)
+				queryCache.Store(script, a.r)
+				m.slowLog(t0, a.r, extra)
+				return a.r
 			}
 		}
-		for i, ss := range m.sessions {
-			if ss.s.server {
-				order = append(order, i)
+		cancel()
+		noteStage("race", time.Since(t0), Unknown)
+		m.slowLog(t0, Unknown, extra)
+		if firstErr != nil {
+			panic(abortRun{firstErr.Error()})
+		}
+		for i := 2; i < len(m.sessions); i++ {
+			if strings.Contains(script, "str.in_re") && m.sessions[i].s.name == "z3-1" {
+				continue // z3 4.8.12 practically never decides a regex query the others could not
 			}
+			order = append(order, i)
 		}
 	} else {
 		for i := range m.sessions {
